@@ -92,6 +92,11 @@ def special(x):
     return x
 
 
+def kernel_e(e, n, m):
+    r = np.sqrt(e**2 + n**2) + m
+    return r**2 * (np.i0(r) - 1)
+
+
 def wrap(w, e):
     w = w % 360
     e = e % 360
